@@ -23,7 +23,7 @@ _TOK = re.compile("\x01(\\d+)\x02")
 
 
 def tok(v):
-    """token text standing for the decimal rendering of a symbolic int"""
+    """token text standing for the rendering of a symbolic number (int or real)"""
     reg = ctx().ghost.setdefault("tokens", [])
     for i, x in enumerate(reg):
         if x is v:
@@ -389,6 +389,9 @@ def m_atexit_register(interp, f, *a, **k):
 import json as _json  # noqa: E402
 
 
+SENTINEL = 10 ** 40
+
+
 @model(_json.loads)
 def m_json_loads(interp, s, **kw):
     if isinstance(s, SBytes):
@@ -396,7 +399,56 @@ def m_json_loads(interp, s, **kw):
         if conc is None:
             raise Unsupported("json.loads of symbolic bytes")
         s = conc
+    if isinstance(s, str) and _TOK.search(s):
+        # symbolic numbers inside a JSON text: parse with sentinel integers and map them back
+        reg = ctx().ghost.get("tokens", [])
+        ctx().trust("json.loads(text) returns the numbers written in the text (symbolic numbers travel through sentinels)")
+        txt = _TOK.sub(lambda m: str(SENTINEL + int(m.group(1))), s)
+        try:
+            val = _json.loads(txt, **kw)
+        except Exception as e:
+            raise RaiseSig(e)
+
+        def back(v):
+            if isinstance(v, int) and not isinstance(v, bool) and SENTINEL <= v < SENTINEL + len(reg):
+                return reg[v - SENTINEL]
+            if isinstance(v, list):
+                return [back(x) for x in v]
+            if isinstance(v, dict):
+                return {k: back(x) for k, x in v.items()}
+            return v
+        return back(val)
     try:
         return _json.loads(s, **kw)
     except Exception as e:
         raise RaiseSig(e)
+
+
+class SJsonText:
+    """json.dumps of a structure containing symbolic numbers: the structure itself (the text is the
+    standard rendering of it; numbers round-trip by the assumed json float repr contract)"""
+    _pyvc_symbolic = True
+    _pyvc_strlike = True
+
+    def __init__(self, value, kw):
+        self.value = value
+        self.kw = kw
+
+    def encode(self, *a):
+        b = SBytes.fresh(ctx(), ctx().fresh_name("json_bytes"), inp=False)
+        b.json_of = self
+        return b
+
+    def truth(self):
+        return True
+
+
+@model(_json.dumps)
+def m_json_dumps(interp, obj, **kw):
+    if not contains_sym(obj):
+        try:
+            return _json.dumps(obj, **kw)
+        except Exception as e:
+            raise RaiseSig(e)
+    ctx().trust("json.dumps/loads round-trip numbers exactly (float repr is shortest round-tripping)")
+    return SJsonText(obj, kw)
